@@ -156,3 +156,22 @@ func (n *nestReader) Read(p []byte) (int, error) {
 	}
 	return n.inner.Read(p)
 }
+
+// withGuard copies b into a buffer that has 16 more bytes of capacity, filled with a guard value. The
+// returned slice has len(b); the spare capacity belongs to the caller, so a callee that appends to (a
+// sub-slice of) its argument writes into the guard. intact reports whether the guard is untouched.
+func withGuard(b []byte) (in []byte, intact func() bool) {
+	buf := make([]byte, len(b)+16)
+	copy(buf, b)
+	for i := len(b); i < len(buf); i++ {
+		buf[i] = 0xEE
+	}
+	return buf[:len(b)], func() bool {
+		for _, x := range buf[len(b):] {
+			if x != 0xEE {
+				return false
+			}
+		}
+		return true
+	}
+}
